@@ -198,3 +198,22 @@ Theorem C08_ambiguous_face_nonmanifold :
   forall (nv : N) (pre post : list tri), ~ manifold nv (pre ++ witness_tris ++ post).
 Proof. exact (@ambiguous_face_nonmanifold). Qed.
 Print Assumptions C08_ambiguous_face_nonmanifold.
+
+(* ---- where a leaf vertex may lie (after the repair of the unbounded QEF placement) ---- *)
+From Coq Require Import Reals.
+From FV Require Import QefBound.
+Theorem C08_mass_point_in_cell :
+  forall (lo hi : R) (l : list R), l <> [] -> Forall (fun x => (lo <= x <= hi)%R) l -> (lo <= mean l <= hi)%R.
+Proof. exact mass_point_in_cell. Qed.
+Print Assumptions C08_mass_point_in_cell.
+
+Theorem C08_leaf_vertex_within_one_cell_size :
+  forall (lo hi pos : R * R * R) (xs ys zs : list R) (v : R * R * R),
+  let '(lx, ly, lz) := lo in let '(hx, hy, hz) := hi in
+  (lx <= hx)%R -> (ly <= hy)%R -> (lz <= hz)%R ->
+  xs <> [] -> ys <> [] -> zs <> [] ->
+  Forall (fun x => (lx <= x <= hx)%R) xs -> Forall (fun y => (ly <= y <= hy)%R) ys -> Forall (fun z => (lz <= z <= hz)%R) zs ->
+  ((~ far3 lo hi pos /\ v = pos) \/ (far3 lo hi pos /\ v = (mean xs, mean ys, mean zs))) ->
+  within3 lo hi v.
+Proof. exact leaf_vertex_within_one_cell_size. Qed.
+Print Assumptions C08_leaf_vertex_within_one_cell_size.
